@@ -627,7 +627,7 @@ def facet_table(ck, F, X):
             ck.undecided("R4", "reader-row-shape", b["span"], f"facet extraction of unrecognised shape: {u.what}")
         # a struct literal `Restrictions { min_inclusive: facet("minInclusive"), .. }` (in the builder or in a helper of it)
         CEr = og.CallExpander(F)
-        for (fn_, site_, ctx_, fields_, base_) in og.field_summaries(F, "structures::restrictions::Restrictions"):
+        for (fn_, site_, ctx_, fields_, base_) in og.field_summaries(F, "structures::restrictions::Restrictions", through_helpers=False):
             if fn_ != b["path"]:
                 continue
             for f_, v_ in fields_.items():
